@@ -55,6 +55,14 @@ func ValidateAgainstSchema(chrt *chart.Chart, values map[string]interface{}) err
 	return nil
 }
 
+// noExternalSchemaLoader refuses to load any schema that is not part of the
+// chart's values.schema.json itself.
+type noExternalSchemaLoader struct{}
+
+func (noExternalSchemaLoader) Load(url string) (any, error) {
+	return nil, fmt.Errorf("values.schema.json: external $ref %q is not supported", url)
+}
+
 // ValidateAgainstSingleSchema checks that values does not violate the structure laid out in this schema
 func ValidateAgainstSingleSchema(values Values, schemaJSON []byte) (reterr error) {
 	defer func() {
@@ -72,6 +80,9 @@ func ValidateAgainstSingleSchema(values Values, schemaJSON []byte) (reterr error
 	slog.Debug("unmarshalled JSON schema", "schema", schemaJSON)
 
 	compiler := jsonschema.NewCompiler()
+	// The schema is chart content: a $ref must not make validation read files
+	// of the host (the default loader resolves file:// URLs).
+	compiler.UseLoader(noExternalSchemaLoader{})
 	err = compiler.AddResource("file:///values.schema.json", schema)
 	if err != nil {
 		return err
